@@ -196,6 +196,49 @@ func convolutedBackrefRules() lexer.Rules {
 	}
 }
 
+// nestedIncludeRules: Includes three levels deep (Root -> Expr -> Atoms -> Lits).
+func nestedIncludeRules() lexer.Rules {
+	return lexer.Rules{
+		"Root": {
+			{Name: "Open", Pattern: `\{`, Action: lexer.Push("Block")},
+			lexer.Include("Expr"),
+		},
+		"Block": {
+			{Name: "Close", Pattern: `\}`, Action: lexer.Pop()},
+			lexer.Include("Expr"),
+		},
+		"Expr": {
+			{Name: "Oper", Pattern: `[-+*/]`},
+			lexer.Include("Atoms"),
+			{Name: "space", Pattern: `\s+`},
+		},
+		"Atoms": {
+			{Name: "Ident", Pattern: `[a-z]\w*`},
+			lexer.Include("Lits"),
+		},
+		"Lits": {
+			{Name: "Num", Pattern: `\d+`},
+			{Name: "Str", Pattern: `'[^']*'`},
+		},
+	}
+}
+
+// eofNamedRules: a user rule that happens to be called EOF (a here-doc terminator).
+func eofNamedRules() lexer.Rules {
+	return lexer.Rules{
+		"Root": {
+			{Name: "Start", Pattern: `<<EOF\b`, Action: lexer.Push("Doc")},
+			{Name: "Word", Pattern: `\w+`},
+			{Name: "space", Pattern: `\s+`},
+		},
+		"Doc": {
+			{Name: "EOF", Pattern: `\bEOF\b`, Action: lexer.Pop()},
+			{Name: "Word", Pattern: `\w+`},
+			{Name: "space", Pattern: `\s+`},
+		},
+	}
+}
+
 func mustRules(r lexer.Rules) lexer.Definition {
 	d, err := lexer.New(r)
 	if err != nil {
@@ -237,6 +280,10 @@ var lexDefs = []*lexDef{
 		corpus: []string{"10px 12 3.5em 7% 1.5e-3 2rem", "select a-b FROM 'it\\'s' where x<=>y -> z", "<div class> text </div> a..b a...b \\n \\", "x:y z: ; comment\nünï 'open", "10p 1.e 1.5e+ <a  'q\\", "#!/bin/sh -e\n$Émile $école $STRASSE $x @ @@ 0x1F 0Xabcde 0x", ""}},
 	{name: "convoluted-backref", rules: convolutedBackrefRules, build: func() lexer.Definition { return mustRules(convolutedBackrefRules()) },
 		corpus: []string{`\\1 \\\1 ; x`, `<ab|cd> w ab x cd y`, `<a|b> a a b <c|c> c`, `\\1 \\1`, `<a|`, ""}},
+	{name: "nested-include", rules: nestedIncludeRules, genName: "NestedInclude", build: func() lexer.Definition { return mustRules(nestedIncludeRules()) },
+		corpus: []string{"a + 1 { b * 'c' } - 2", "{ { x } }", "a ? b", "{ 'open", "}", ""}},
+	{name: "eof-named-rule", rules: eofNamedRules, genName: "EofNamed", build: func() lexer.Definition { return mustRules(eofNamedRules()) },
+		corpus: []string{"a <<EOF b c EOF d e", "<<EOF x", "EOF <<EOF EOF EOF", ""}},
 	{name: "optgroup", rules: optGroupRules, build: func() lexer.Definition { return mustRules(optGroupRules()) },
 		corpus: []string{"a <<-END x y END b", "a <<END x END b", "<<- x", "<<E", ""}},
 	{name: "basic-runtime", build: basicRuntimeDef, genName: "",
